@@ -171,7 +171,7 @@ func lintransEvaluatorTarget() *Target {
 		}}
 	}
 	t := &Target{
-		Name: "lintrans.Evaluator", Envs: []string{"ckks", "bgv", "ckks-1p"},
+		Name: "lintrans.Evaluator", Envs: []string{"ckks", "bgv", "ckks-1p", "ckks-ci"},
 		Type:             reflect.TypeOf(&lintrans.Evaluator{}),
 		New:              func(e *Env) interface{} { return &lintrans.Evaluator{Evaluator: schemeEvaluator(e)} },
 		Shared:           func(e *Env) []interface{} { return []interface{}{e.Evk} },
